@@ -12,10 +12,19 @@ Bodies == {<<>>, <<I("PUSH", 0), I("CALL", 0)>>, <<I("PUSH", 1), I("CALL", 0)>>,
            <<I("PUSH", 1)>>, <<I("POP", 0)>>, <<I("PUSH", 3), I("PUSH", 0), I("LOOPCALL", 0)>>, <<I("JMPR", 0)>>, <<I("JMPR", 9)>>,
            <<I("DUP", 0), I("IF", 0), I("PUSH", -1), I("ADD", 0), I("DUP", 0), I("PUSH", 0), I("CALL", 0), I("PUSH", 0), I("CALL", 0), I("EIF", 0)>>}
 \* quick: all glyph programs of length <= 3 over the alphabet with two fixed functions; plus every pair of catalogue bodies with short glyph programs
+Big == I("PUSH", 1073741824)
+OperandLoops == {[funcs |-> <<<<I("PUSH", 1)>>, <<>>>>, glyph |-> g] : g \in {
+    <<Big, I("DELTAC", 0), Big, I("DELTAC", 0), Big, I("DELTAC", 0), Big, I("DELTAC", 0), Big, I("DELTAC", 0), Big, I("DELTAC", 0), Big, I("DELTAC", 0), Big, I("DELTAC", 0)>>,
+    <<I("PUSH", 5), I("PUSH", 6), Big, I("DELTAC", 0)>>, <<I("PUSH", -1), I("DELTAC", 0)>>, <<I("PUSH", 0), I("DELTAC", 0)>>,
+    <<Big, I("SLOOP", 0), I("FLIPPT", 0)>>, <<I("PUSH", -2), I("SLOOP", 0)>>, <<I("PUSH", 0), I("PUSH", 1), I("PUSH", 2), I("PUSH", 3), I("SLOOP", 0), I("FLIPPT", 0)>>,
+    <<I("PUSH", 0), I("PUSH", 40), I("PUSH", 2), I("SLOOP", 0), I("FLIPPT", 0)>>, <<I("PUSH", 0), I("SLOOP", 0), I("FLIPPT", 0), I("FLIPPT", 0)>>}}
 ProgramsQuick == {[funcs |-> <<Bodies1, Bodies2>>, glyph |-> g] : Bodies1 \in {<<I("PUSH", 1)>>}, Bodies2 \in {<<I("PUSH", 0), I("CALL", 0)>>}, g \in SeqsUpTo(Alphabet, 3)}
                  \cup {[funcs |-> <<b1, b2>>, glyph |-> g] : b1 \in Bodies, b2 \in Bodies,
                        g \in {<<I("PUSH", 0), I("CALL", 0)>>, <<I("PUSH", 1), I("CALL", 0)>>, <<I("PUSH", 200), I("PUSH", 0), I("LOOPCALL", 0)>>,
+                              <<I("PUSH", 120), I("PUSH", 0), I("LOOPCALL", 0)>>, <<I("PUSH", 121), I("PUSH", 0), I("LOOPCALL", 0)>>,
+                              <<I("PUSH", 121), I("PUSH", -1), I("ADD", 0), I("DUP", 0), I("JROT", -3)>>, <<I("PUSH", 122), I("PUSH", -1), I("ADD", 0), I("DUP", 0), I("JROT", -3)>>,
                               <<I("PUSH", 31), I("PUSH", 0), I("CALL", 0)>>, <<I("PUSH", 60), I("PUSH", 1), I("LOOPCALL", 0), I("PUSH", 70), I("PUSH", 0), I("LOOPCALL", 0)>>}}
+                 \cup OperandLoops
 ProgramsThorough == ProgramsQuick \cup {[funcs |-> <<b1, b2>>, glyph |-> g] : b1 \in {<<I("PUSH", 1)>>, <<I("POP", 0)>>}, b2 \in {<<>>}, g \in SeqsUpTo(Alphabet, 4)}
 
 Dump == (status # "run") => PrintT(<<"PROG", ToJson([funcs |-> p.funcs, glyph |-> p.glyph, outcome |-> status, steps |-> steps])>>)
